@@ -50,6 +50,12 @@ let rec take k = function [] -> [] | x :: t -> if k = 0 then [] else x :: take (
 (* "P[0:10,3:11] A[0@0:10]" -> pending hids, (active hid, connected) *)
 let between s a b =
   try let i = String.index_from s 0 a in let j = String.index_from s i b in String.sub s (i + 1) (j - i - 1) with Not_found -> ""
+let parse_pend_resp d =
+  let ps = (try ignore (Str.search_forward (Str.regexp "P\\[\\([^]]*\\)\\]") d 0); Str.matched_group 1 d with Not_found -> "") in
+  List.filter_map (fun e -> if e = "" then None else
+    match String.split_on_char ':' e with
+    | [h; f] when String.length f = 2 -> Some (int_of_string h, f.[1] = '1')
+    | _ -> None) (String.split_on_char ',' ps)
 let parse_digest d =
   let ps = (try let i = Str.search_forward (Str.regexp "P\\[\\([^]]*\\)\\]") d 0 in ignore i; Str.matched_group 1 d with Not_found -> "") in
   let as_ = (try let i = Str.search_forward (Str.regexp "A\\[\\([^]]*\\)\\]") d 0 in ignore i; Str.matched_group 1 d with Not_found -> "") in
@@ -73,6 +79,7 @@ let () =
   let ospec = ref ospec0 and pend_before = ref [] and srv_seen = ref [] in
   let hyp_false = ref false and reuse_seen = ref false and cd_seen = ref false in
   let conn_seen = ref [] and spur_dead = ref false in
+  let resp_before = ref [] and lost_dead = ref false in
   let printed = Hashtbl.create 64 in
   let report sg text =
     let n = try Hashtbl.find printed sg with Not_found -> 0 in
@@ -92,7 +99,7 @@ let () =
       match toks with
       | "C" :: _variant :: kvs ->
         flush_case (); incr case_no; op_no := 0; dead := false; spec_dead := false; disc_dead := false;
-        ospec := ospec0; pend_before := []; srv_seen := []; hyp_false := false; reuse_seen := false; cd_seen := false; conn_seen := []; spur_dead := false;
+        ospec := ospec0; pend_before := []; srv_seen := []; hyp_false := false; reuse_seen := false; cd_seen := false; conn_seen := []; spur_dead := false; resp_before := []; lost_dead := false;
         let kv k = let p = k ^ "=" in
           let e = List.find (fun s -> String.length s > String.length p && String.sub s 0 (String.length p) = p) kvs in
           int_of_string (String.sub e (String.length p) (String.length e - String.length p)) in
@@ -149,6 +156,19 @@ let () =
            | l -> cands := take 16 (List.rev l); if List.length l > !maxc then maxc := List.length l);
           if impl_obs = "P" then dead := true
         end;
+        (* a poll of one pending response touches only its own channel: a response queued for a SIBLING pending
+           response must still be there afterwards (regression of fix 9915d96) *)
+        let resp_now = parse_pend_resp impl in
+        (match o with
+         | Pr k when impl_obs <> "P" ->
+           let polled = (try fst (List.nth !resp_before (int_of_n k)) with _ -> -1) in
+           List.iter (fun (h, had) ->
+               if had && h <> polled && List.mem_assoc h resp_now && not (List.assoc h resp_now) && not !lost_dead then begin
+                 lost_dead := true; incr mm_spec;
+                 report "speclost" (Printf.sprintf "MISMATCH case=%d op=%d kind=spec what=response_lost_by_sibling_poll line=[%s] spec=queued-response-of-request-%d-survives-a-receive-on-another-pending-response impl=%s\n" !case_no !op_no line h impl_obs)
+               end) !resp_before
+         | _ -> ());
+        resp_before := resp_now;
         (* ---- the oracle of the property, on the implementation's observations ---- *)
         if not !spec_dead then begin
           let bad what spec =
